@@ -798,7 +798,7 @@ impl TryFrom<&[u8]> for AdcV3Packet {
             return Err(Self::Error::BadNumberOfSamples {
                 found: waveform.len(),
                 min: BASELINE_SAMPLES,
-                max: requested_samples - 2,
+                max: requested_samples.saturating_sub(2),
             });
         }
         let data_baseline = {
@@ -836,14 +836,14 @@ impl TryFrom<&[u8]> for AdcV3Packet {
                 return Err(Self::Error::BadNumberOfSamples {
                     found: waveform.len(),
                     min: last_index + 1,
-                    max: requested_samples - 2,
+                    max: requested_samples.saturating_sub(2),
                 });
             }
-            if waveform.len() > requested_samples - 2 {
+            if waveform.len() > requested_samples.saturating_sub(2) {
                 return Err(Self::Error::BadNumberOfSamples {
                     found: waveform.len(),
                     min: last_index + 1,
-                    max: requested_samples - 2,
+                    max: requested_samples.saturating_sub(2),
                 });
             }
         } else {
@@ -859,7 +859,7 @@ impl TryFrom<&[u8]> for AdcV3Packet {
                     return Err(Self::Error::BadNumberOfSamples {
                         found: waveform.len(),
                         min: last_index + 1,
-                        max: requested_samples - 2,
+                        max: requested_samples.saturating_sub(2),
                     });
                 }
             } else if keep_last != 0 {
@@ -868,11 +868,11 @@ impl TryFrom<&[u8]> for AdcV3Packet {
                     limit: 0,
                 });
             }
-            if waveform.len() != requested_samples - 2 {
+            if waveform.len() != requested_samples.saturating_sub(2) {
                 return Err(Self::Error::BadNumberOfSamples {
                     found: waveform.len(),
-                    min: requested_samples - 2,
-                    max: requested_samples - 2,
+                    min: requested_samples.saturating_sub(2),
+                    max: requested_samples.saturating_sub(2),
                 });
             }
         }
